@@ -298,6 +298,9 @@ Definition dispatch (op : bop) (a b : pyval) : G pyval :=
   r <- match a with
        | PInt x => match b, op with                       (* plain Python ints (only what library code itself computes on ints) *)
                    | PInt y, OAdd => ret (PInt (x + y)) | PInt y, OSub => ret (PInt (x - y)) | PInt y, OMul => ret (PInt (x * y))
+                   | PInt y, OLt => ret (PInt (if x <? y then 1 else 0)) | PInt y, OLe => ret (PInt (if x <=? y then 1 else 0))
+                   | PInt y, OGt => ret (PInt (if y <? x then 1 else 0)) | PInt y, OGe => ret (PInt (if y <=? x then 1 else 0))
+                   | PInt y, OEq => ret (PInt (if x =? y then 1 else 0)) | PInt y, ONe => ret (PInt (if x =? y then 0 else 1))
                    | _, _ => NI end
        | PLC x => lc_dunder op x b
        | PBool _ x => bool_dunder op x b
@@ -362,10 +365,12 @@ Definition unop (op : uop) (v : pyval) : G pyval :=
   | UNeg => uneg v
   | UPos => match v with PLC _ | PBool _ _ | PFxp _ _ | PInt _ | PFloat _ _ => ret v | _ => static_raise TypeError end
   | UAbs => match v with
+            | PInt k => ret (PInt (Z.abs k)) | PFloat m e => ret (PFloat (Z.abs m) e)       (* plain Python numbers *)
             | PLC x | PBool _ x => ge0 <- lc_dunder OGe x (PInt 0) ;; if_then_else ge0 (PLC x) (PLC (neg x))
             | PFxp _ f => ge0 <- fxp_dunder OGe f (PInt 0) ;; if_then_else ge0 v (PFxp 0 (neg f))
             | _ => static_raise TypeError end
   | UInvert => match v with
+               | PInt k => ret (PInt (- k - 1))                                            (* ~k on a plain int *)
                | PLC x => lcr (invert_lc c x)
                | PBool _ b => mkbool (bnot b)
                | _ => static_raise TypeError end
